@@ -11,12 +11,12 @@ Shape(a, b, c, d) == [nsub |-> a, nses |-> b, ntask |-> c, nrun |-> d]
 Tiny == {Shape(1, 0, 1, 1)}
 OneSes == {Shape(1, 1, 1, 1)}
 OneShape == {Shape(1, 1, 2, 1)}
-UpTo4 == {sh \in AllShapes : NEvents(sh) <= 4}
-\* exhaustive generation, quick: no session level or a single file below a session
+UpTo2 == {sh \in AllShapes : NEvents(sh) <= 2}
+\* exhaustive tree generation for the replay (<= 2 sidecars): quick / thorough tier
 GenQuick == {Shape(1, 0, 1, 1), Shape(1, 0, 2, 1)}
 GenThorough == {Shape(1, 0, 1, 1), Shape(1, 0, 2, 1), Shape(2, 0, 1, 1), Shape(1, 0, 1, 2), Shape(1, 1, 1, 1)}
 
-\* design runs: every decoy set with every shape
+\* design runs: every decoy set / no decoys and all decoys / no decoys
 AnyDecoy(sh, d) == TRUE
 TwoDecoy(sh, d) == d = {} \/ d = DecoyKindsDef
 NoDecoy(sh, d) == d = {}
@@ -24,6 +24,7 @@ NoDecoy(sh, d) == d = {}
 DecoyList == <<{"derivatives"}, {"code", "othersuffix"}, {}, {"derivatives", "othersuffix"}>>
 RotDecoy(sh, d) == d = DecoyList[((sh.nsub + 2 * sh.nses + sh.ntask + 2 * sh.nrun) % 4) + 1]
 
+\* ---- emission: one JSON line per tree with what the specification prescribes for every file ----
 F == AllFiles
 G == Inheritable(F)
 PathMap(m) == [c \in DOMAIN m |-> Path(m[c])]
